@@ -120,3 +120,47 @@ package keeper
 //@   ensures module_nets_to_zero: err == nil && feeAcc != MOD && macc(k.feeCollectorName) != MOD ==> bal(MOD, fee.Denom) == old(bal(MOD, fee.Denom))
 //@   nopanic C16
 //@ end
+
+// ---------------------------------------------------------------------------------------------
+// Parameters (C16)
+
+//@ define paramsOK(p) = !isnil(p.TokenTaxRate) && raw(p.TokenTaxRate) >= 0 && raw(p.TokenTaxRate) <= DEC_ONE
+//@      && !isnil(p.MintTokenFeeRatio) && raw(p.MintTokenFeeRatio) >= 0 && raw(p.MintTokenFeeRatio) <= DEC_ONE
+//@      && p.IssueTokenBaseFee.Amount >= 0 && ufb("denom_valid", p.IssueTokenBaseFee.Denom)
+//@ define paramsStored = has(prm) && paramsOK(get(prm))
+
+//@ func Keeper.SetParams
+//@   property C16
+//@   returns err
+//@   modifies prm
+//@   ensures stored:   err == nil ==> has(prm) && get(prm) == params && paramsOK(params)
+//@   ensures rejected: err != nil ==> prm == old(prm)
+//@ end
+
+//@ func msgServer.UpdateParams
+//@   property C16
+//@   returns resp, err
+//@   modifies prm
+//@   ensures authority: err == nil ==> msg.Authority == m.k.authority
+//@   ensures stored:    err == nil ==> has(prm) && get(prm) == msg.Params && paramsOK(msg.Params)
+//@   ensures rejected:  err != nil ==> prm == old(prm)
+//@ end
+
+// The fee factor is computed with floating point (math.Log / math.Pow): assumed contract (A-FLOAT), not verified.
+//@ func calcFeeFactor
+//@   property C16
+//@   trusted
+//@   returns r
+//@   requires len(name) >= 3
+//@   ensures at_least_one: !isnil(r) && raw(r) >= DEC_ONE
+//@   nopanic
+//@ end
+
+//@ func Keeper.calcTokenIssueFee
+//@   property C16
+//@   returns fee, params
+//@   requires paramsStored
+//@   requires len(symbol) >= 3
+//@   ensures fee_ok: fee.Amount >= 1 && fee.Denom == get(prm).IssueTokenBaseFee.Denom && params == get(prm)
+//@   nopanic
+//@ end
